@@ -11,6 +11,10 @@ package file
 //@ pure func allv4(m map[string]net.IP) bool = forall k string: has(m, k) ==> isv4(m[k])
 //@ pure func allv6(m map[string]net.IP) bool = forall k string: has(m, k) ==> (len(m[k]) == 16 && !isv4mapped(m[k]))
 
+// C10: a line of the lease file is acceptable: empty, a comment, or "<hardware address> <address of the right family>"
+//@ pure func lineok(s string, v6 bool) bool = len(s) == 0 || hasprefix(s, "#") || (nfields(s) == 2 && parsemac_ok(sfield(s, 0)) && \
+//@     ite(v6, ipparses(sfield(s, 1)) && !ip4text(sfield(s, 1)), ip4text(sfield(s, 1))))
+
 //@ func LoadDHCPv4Records
 //@   modifies everything
 //@   ensures ret1 == nil ==> (ret0 != nil && fresh(ret0) && allv4(ret0))
@@ -18,7 +22,10 @@ package file
 //@   ensures StaticRecords == old(StaticRecords) && held(recLock) == old(held(recLock)) && rheld(recLock) == old(rheld(recLock))
 // every line of the file is looked at (C10: a malformed last line rejects the file, a valid one is served)
 //@   ensures[C10,internal:every-line-is-processed] ret1 == nil ==> rangeindex == len(bsplit(data, 10))
+//@   ensures[C10,internal:any-malformed-line-rejects-the-file] ret1 == nil ==> (forall i in 0..len(bsplit(data, 10)): lineok(strval(bsplit(data, 10)[i]), false))
 //@   loop 1: invariant records != nil && fresh(records) && allv4(records) && StaticRecords == old(StaticRecords)
+//@   loop 1: invariant[C10] forall i in 0..rangeindex+1: lineok(strval(bsplit(data, 10)[i]), false)
+//@   assert[C10:accepted-line-is-wellformed] before "hwaddr.String()": lineok(line, false) && line == strval(bsplit(data, 10)[rangeindex])
 
 //@ func LoadDHCPv6Records
 //@   modifies everything
@@ -26,7 +33,9 @@ package file
 //@   ensures ret1 != nil ==> ret0 == nil
 //@   ensures StaticRecords == old(StaticRecords) && held(recLock) == old(held(recLock)) && rheld(recLock) == old(rheld(recLock))
 //@   ensures[C10,internal:every-line-is-processed] ret1 == nil ==> rangeindex == len(bsplit(data, 10))
+//@   ensures[C10,internal:any-malformed-line-rejects-the-file] ret1 == nil ==> (forall i in 0..len(bsplit(data, 10)): lineok(strval(bsplit(data, 10)[i]), true))
 //@   loop 1: invariant records != nil && fresh(records) && allv6(records) && StaticRecords == old(StaticRecords)
+//@   loop 1: invariant[C10] forall i in 0..rangeindex+1: lineok(strval(bsplit(data, 10)[i]), true)
 
 // C10: an update is all-or-nothing - a file with any malformed line leaves the table in force,
 // a well-formed one replaces it as a whole (one pointer store under the write lock)
